@@ -151,7 +151,7 @@ def gen_graphs(tier, seed, scale=1):
     for g in dg.enumerate_small(3):
         graphs.append(g)
         stats["enumerated (3 systems, tree only)"] += 1
-    n_rand = (700 if tier == "quick" else 2500) * scale
+    n_rand = (700 if tier == "quick" else 1500) * scale
     for _ in range(n_rand):
         g = dg.random_graph(rng, rng.randint(2, 40))
         graphs.append(dg.with_runs(rng, g, tier))
@@ -226,7 +226,7 @@ def check_dispatch(pid, tier, seed):
     graphs, gstats = gen_graphs(tier, seed)
     results = run_dispatch(graphs)
     if tier == "thorough":
-        rel = run_dispatch([g for g in graphs if any(it[0] == "run" for it in g)][:1500], release=True)
+        rel = run_dispatch([g for g in graphs if any(it[0] == "run" for it in g)][:400], release=True)
         results = results + rel
     violations, div = [], []
     distinct, nontriv = set(), set()
@@ -332,8 +332,8 @@ def check_dispatch(pid, tier, seed):
             trusted_base=checks.TRUSTED_COMMON + [
                 "modelled not verified: shred 0.16.1 StagesBuilder/DispatcherBuilder (Dispatch/Stage.v, compared by exact "
                 "stage/group tree with the Debug output of the real builder), shred World borrow flags (AtomicRefCell) as "
-                "reader count / writer flag, rayon as an arbitrary interleaving of the groups of a stage; a system's "
-                "fetch is one atomic event in the model; thread-local systems and batch dispatchers are not modelled",
+                "reader count / writer flag, rayon as an arbitrary interleaving of the groups of a stage; "
+                "thread-local systems and batch dispatchers are not modelled",
                 "the harness systems use a dynamic accessor (shred Accessor/DynamicSystemData) that concatenates the real "
                 "SystemData::reads()/writes() of ReadStorage/WriteStorage/Entities/Read<LazyUpdate> and calls their real "
                 "fetch in order, as shred's tuple impls do",
